@@ -2122,3 +2122,81 @@ func ruleDefaultValueSemantics(c *Ctx, r *Report) {
 			"nothing between the schema and the PopulateDefaults template distinguishes a leaf below a case: its default is populated unconditionally, so a tree with case b populated gets the default of a leaf of case a as well and no longer validates (\"multiple cases selected\")")
 	}
 }
+
+// ---- R-UNSET-KEY (C20, C12) --------------------------------------------------------------------------
+
+// ruleUnsetKey: a list entry's key leaf is a pointer (nil when unset) or stored by value — an
+// enumeration (0 when unset) or a union interface (nil when unset). Code that reads the key leaf out
+// of an entry must refuse both forms of "unset"; handling only the pointer form lets a zero
+// reflect.Value reach reflect.Value.Set (panic on JSON list entries without their union key),
+// silently keys entries by the UNSET enumeration value, and defeats retrieveNodeList's fallback to
+// the map key for entries in a transitory state.
+func ruleUnsetKey(c *Ctx, r *Report) {
+	r.Rule("R-UNSET-KEY", "ytypes.getKeyValue returns a by-value key leaf only after testing that it is not the zero value (as it tests a pointer key leaf for nil), and makeKeyForInsert copies a key leaf into the key struct only after a test that covers a zero by-value leaf", 2)
+	zeroTested := func(f *FuncInfo, at ast.Node) (bool, string) {
+		info := f.Info()
+		for _, ft := range c.FactsAt(f, at, false) {
+			if ft.Kind != "cond" || ft.Pos {
+				continue
+			}
+			found := false
+			ast.Inspect(ft.Cond, func(n ast.Node) bool {
+				if call, ok := n.(*ast.CallExpr); ok && FullName(Callee(info, call)) == "reflect.Value.IsZero" {
+					found = true
+				}
+				return true
+			})
+			if found {
+				return true, "not (" + types.ExprString(ft.Cond) + ")"
+			}
+		}
+		return false, ""
+	}
+	if f := c.MustFunc(r, "ytypes", "getKeyValue"); f != nil {
+		info := f.Info()
+		n := 0
+		for _, rs := range returnsOf(f.Decl.Body) {
+			if len(rs.Results) != 2 || !isNilConst(info, rs.Results[1]) {
+				continue
+			}
+			call, ok := ast.Unparen(rs.Results[0]).(*ast.CallExpr)
+			if !ok || FullName(Callee(info, call)) != "reflect.Value.Interface" {
+				continue
+			}
+			// the by-value return: the receiver is the field itself, not its Elem().
+			recv := ast.Unparen(call.Fun.(*ast.SelectorExpr).X)
+			if inner, ok := recv.(*ast.CallExpr); ok && FullName(Callee(info, inner)) == "reflect.Value.Elem" {
+				continue
+			}
+			n++
+			ok2, why := zeroTested(f, rs)
+			r.Check(ok2, fmt.Sprintf("ytypes.getKeyValue:by-value-return#%d", n), c.Pos(rs.Pos()), "zero (unset) by-value key leaves are refused: "+why,
+				"getKeyValue returns a key leaf that is stored by value (enumeration, union) without testing that it is set: an unset union key reaches reflect.Value.Set as a zero Value (Unmarshal of a JSON list entry without its key panics), an unset enumeration key becomes the map key 0, and retrieveNodeList cannot fall back to the map key for an entry whose key leaf was deleted")
+		}
+		if n == 0 {
+			r.Und("ytypes.getKeyValue:by-value-return", c.Pos(f.Decl.Pos()), "no `return fv.Interface(), nil` found: re-confirm how by-value key leaves are read")
+		}
+	}
+	if f := c.MustFunc(r, "ytypes", "makeKeyForInsert"); f != nil {
+		info := f.Info()
+		n := 0
+		ast.Inspect(f.Decl.Body, func(x ast.Node) bool {
+			call, ok := x.(*ast.CallExpr)
+			if !ok || FullName(Callee(info, call)) != "reflect.Value.Set" {
+				return true
+			}
+			// only the copy inside the per-key-field loop of the struct-key branch.
+			if _, inLoop := c.EnclosingLoop(f, call).(*ast.ForStmt); !inLoop {
+				return true
+			}
+			n++
+			ok2, why := zeroTested(f, call)
+			r.Check(ok2, fmt.Sprintf("ytypes.makeKeyForInsert:key-field-copy#%d", n), c.Pos(call.Pos()), "zero (unset) by-value key leaves are refused: "+why,
+				"makeKeyForInsert copies a key leaf into the key struct after testing only reflect validity: an unset by-value key leaf (nil union, UNSET enumeration) of a multi-key list entry is accepted and the entry is stored under a key it cannot be rendered or addressed by")
+			return true
+		})
+		if n == 0 {
+			r.Und("ytypes.makeKeyForInsert:key-field-copy", c.Pos(f.Decl.Pos()), "no key-field copy found in the struct-key loop: re-confirm the rule")
+		}
+	}
+}
